@@ -115,7 +115,7 @@ def parse_text(log):
     return out
 
 
-def run_batch(engine, crate_dir, crate, harnesses, unit_timeout_s, jobs, log_path, extra_args=()):
+def run_batch(engine, crate_dir, crate, harnesses, unit_timeout_s, jobs, log_path, extra_args=(), prefix=''):
     """One `cargo kani` invocation over `harnesses` (exact names). Returns
     (results: {harness: {...}}, build_error or None)."""
     target_dir = os.path.join(CACHE, f'target-{engine}')
@@ -124,7 +124,7 @@ def run_batch(engine, crate_dir, crate, harnesses, unit_timeout_s, jobs, log_pat
         os.remove(export)
     cmd = ['cargo', 'kani', '-Z', 'stubbing', '-Z', 'unstable-options', '--exact']
     for h in harnesses:
-        cmd += ['--harness', h]
+        cmd += ['--harness', prefix + h]
     cmd += ['-j', str(max(1, min(jobs, len(harnesses)))), '--harness-timeout', str(int(unit_timeout_s)),
             '--target-dir', target_dir, '--output-format', 'terse', '--export-json', export]
     cmd += list(extra_args)
@@ -143,7 +143,7 @@ def run_batch(engine, crate_dir, crate, harnesses, unit_timeout_s, jobs, log_pat
             rc = -9
     wall = time.time() - t0
     log = open(log_path, errors='replace').read()
-    text = parse_text(log)
+    text = {k.split('::')[-1]: v for k, v in parse_text(log).items()}
     results = {}
     exp = None
     if os.path.exists(export):
@@ -159,14 +159,15 @@ def run_batch(engine, crate_dir, crate, harnesses, unit_timeout_s, jobs, log_pat
     by = {}
     if exp:
         for hm in exp.get('harness_metadata', []):
-            by.setdefault(hm['pretty_name'], {})['goto_file'] = hm.get('goto_file')
+            by.setdefault(hm['pretty_name'].split('::')[-1], {})['goto_file'] = hm.get('goto_file')
         for pd in exp.get('property_details', []):
-            by.setdefault(pd['harness_id'], {})['props'] = pd.get('property_details')
+            by.setdefault(pd['harness_id'].split('::')[-1], {})['props'] = pd.get('property_details')
         for c in exp.get('cbmc', []):
-            by.setdefault(c['harness_id'], {})['stats'] = c.get('cbmc_stats')
+            by.setdefault(c['harness_id'].split('::')[-1], {})['stats'] = c.get('cbmc_stats')
         for r in (exp.get('verification_results') or {}).get('results', []):
-            by.setdefault(r['harness_id'], {})['status'] = r.get('status')
-            by[r['harness_id']]['duration_s'] = r.get('duration_ms', 0) / 1000.0
+            hid = r['harness_id'].split('::')[-1]
+            by.setdefault(hid, {})['status'] = r.get('status')
+            by[hid]['duration_s'] = r.get('duration_ms', 0) / 1000.0
     for h in harnesses:
         t = text.get(h, {})
         e = by.get(h, {})
